@@ -100,6 +100,7 @@ class Acc:
 # (abort inside a solver) is handled the same way.  Nothing is ever silently lost and a runaway case cannot hang a check.
 
 _TRACK = {"acc": None, "progress": None, "partial": None, "resume_from": 0, "poison": (), "index": 0, "last_flush": 0.0}
+MAX_RESTARTS = int(os.environ.get("VERIF_MAX_RESTARTS", "25"))
 MEM_LIMIT_BYTES = int(os.environ.get("VERIF_WORKER_MEM_GB", "10")) * (1 << 30)
 
 
@@ -155,6 +156,14 @@ def guarded_body(body):
     return wrapped
 
 
+def _budget_exception(e):
+    """a per-case alarm or the address-space limit (possibly wrapped in an exception group by Hypothesis)"""
+    if isinstance(e, (env.CaseTimeout, MemoryError)):
+        return True
+    subs = getattr(e, "exceptions", None)
+    return bool(subs) and all(_budget_exception(x) for x in subs)
+
+
 def _child_main(fn, arg, job_dir, root, resume_from, poison):
     status = 0
     try:
@@ -169,11 +178,13 @@ def _child_main(fn, arg, job_dir, root, resume_from, poison):
                       last_flush=time.time())
         try:
             acc = fn(arg)
-        except env.CaseTimeout:
-            acc = Acc()
-            acc.inconclusive += 1
-        except BaseException as e:  # a harness error must not be silently lost
-            acc = Acc()
+        except BaseException as e:
+            if _budget_exception(e):
+                # a per-case alarm that fired outside the guarded region (late delivery inside the generator) or the
+                # address-space limit: neither says anything about the property.  Leave without a result: the parent
+                # merges the last flush, poisons the case that was being worked on and restarts the shard.
+                os._exit(4)
+            acc = Acc()                 # a harness error must not be silently lost
             acc.harness_errors.append("%s: %s\n%s" % (type(e).__name__, e, traceback.format_exc()[-1500:]))
         tmp = os.path.join(job_dir, "result.tmp")
         with open(tmp, "wb") as f:
@@ -250,8 +261,11 @@ def run_jobs(fn, args, nproc=None, hard_case_s=None):
         job["poison"].append(idx)
         job["restarts"] += 1
         total.classes["watchdog:" + why] += 1
-        if job["restarts"] > 8:
-            total.harness_errors.append("job %d: more than 8 cases had to be killed (%s)" % (ji, why))
+        if job["restarts"] > MAX_RESTARTS:
+            # a budget problem (overloaded machine, pathological shard), not a verdict and not a harness fault: the rest of
+            # the shard is given up, visibly (class shard-abandoned, one inconclusive) - what was evaluated still counts
+            total.classes["shard-abandoned"] += 1
+            total.inconclusive += 1
             total.merge(job["acc"])
             return
         pending.append(ji)
